@@ -561,6 +561,9 @@ class Tracker:
                 return st
             if steps[0] in ("Ok", "Err") and c.endswith("Result::map"):
                 return st
+            # `opt.filter(pred)` is Some only if `opt` was: the accepting (Some) side survives the adaptor
+            if steps[0] == "Some" and not neg and c.endswith("Option::filter"):
+                return st
         if wrap == "val" and steps:
             if c.endswith("Result::map_err") or c.endswith("Result::as_ref") or c.endswith("Option::as_ref") \
                     or c.endswith("Result::inspect_err") or c.endswith("Result::inspect") or c.endswith("Option::inspect") \
